@@ -401,3 +401,46 @@ fn c06_tween_value_d250ms() { kv_tween_value_body(Duration::from_millis(250)); }
 #[kani::unwind(2)]
 #[kani::stub(Easing::apply, kv_easing_apply_spy)]
 fn c06_tween_value_d10ms() { kv_tween_value_body(Duration::from_millis(10)); }
+
+// ---- a tween scheduled on a clock time ------------------------------------------------------------
+// @h prop=C06,C05 tier=quick kind=main timeout=600
+// @bounds Parameter<f64> with a 250 ms tween whose start is StartTime::ClockTime(target) over a real Arena<Clock> of capacity 1 (clock present / gone, ticking / paused, time and target symbolic); one update of 1/8 s
+// @funcs Parameter::update_tween (ClockTime arm), Info::when_to_start
+// @assume Tween::value and <f64 as Tweenable>::interpolate replaced by memoised stand-ins; Duration::from_secs_f64 arbitrary (unused)
+// @catches a tween starting before the clock reaches its time or while the clock is paused; not starting when it is due; moving the value while waiting
+// @requires kv_clock_force.rs
+#[kani::proof]
+#[kani::unwind(3)]
+#[kani::stub(Tween::value, kv_tween_value)]
+#[kani::stub(<f64 as Tweenable>::interpolate, kv_interp64)]
+#[kani::stub(Duration::from_secs_f64, kv_duration_from_secs_any)]
+fn c06_param_tween_starts_when_its_clock_time_is_reached() {
+	let mut clocks: Arena<Clock> = Arena::new(1);
+	let key = clocks.controller().try_reserve().unwrap();
+	let id = crate::clock::ClockId(key);
+	let (present, ticking): (bool, bool) = (kani::any(), kani::any());
+	let (ticks, tt): (u64, u64) = (kani::any(), kani::any());
+	let (fraction, tf): (f64, f64) = (kani::any(), kani::any());
+	kani::assume(ticks <= (1 << 40) && tt <= (1 << 40) && fraction >= 0.0 && fraction < 1.0 && tf >= 0.0 && tf < 1.0);
+	let (start, target, raw) = (kv_finite64(1e300), kv_finite64(1e300), kv_finite64(1e300));
+	if present {
+		let mut c = Clock::without_handle(Value::Fixed(crate::clock::ClockSpeed::TicksPerSecond(1.0)));
+		c.kv_force(ticking, ticks, fraction);
+		let r = clocks.insert_with_key(key, c); std::mem::forget(r);
+	}
+	let a = KvArenas::empty();
+	let info = Info::new(&clocks, &a.1, &a.2, None);
+	let tween = Tween { start_time: StartTime::ClockTime(crate::clock::ClockTime { clock: id, ticks: tt, fraction: tf }), duration: Duration::from_millis(250), easing: Easing::Linear };
+	let mut p = Parameter::<f64> { state: State::Tweening { start, target: Value::Fixed(target), time: 0.0, tween }, raw_value: raw, previous_raw_value: raw, stagnant: false };
+	let finished = p.update(0.125, &info);
+	let reached = ticks > tt || (ticks == tt && fraction >= tf);
+	let time_now = match p.state { State::Tweening { time, .. } => time, _ => -1.0 };
+	if present && ticking && reached {
+		assert!(!finished && time_now == 0.125, "the tween starts in the update in which the clock has reached its time");
+	} else {
+		assert!(!finished && time_now == 0.0, "a parameter keeps waiting while the clock is short of the time, paused, or gone");
+	}
+	kani::cover!(present && ticking && ticks == tt && fraction == tf, "w:exactly-on-time");
+	kani::cover!(!present, "w:clock-gone");
+	std::mem::forget(clocks);
+}
